@@ -143,7 +143,7 @@ func execTime(a []string) (string, string) {
 	out, v := doTime(a)
 	// lateness is a wall-clock measurement: a machine busy with other checks can delay one run by more than the allowance.
 	// A call that really outlives its deadline does so on every run, so a late run is confirmed twice before it is reported.
-	for i := 0; i < 2 && strings.Contains(out, "late=1"); i++ {
+	for i := 0; i < 2 && (strings.Contains(out, "late=1") || strings.Contains(out, "late2=1")); i++ {
 		out, v = doTime(a)
 	}
 	timeCacheMu.Lock()
@@ -194,34 +194,53 @@ func doTime(a []string) (string, string) {
 		}
 	}
 	u.arm(fault, T)
-	ctx, cancel := context.WithDeadline(context.Background(), time.Now().Add(D))
-	defer cancel()
-	start := time.Now()
-	switch call {
-	case "sl":
-		_, err = t.GetSystemGUID(ctx)
-	case "hs":
-		_, err = t.NewV2Session(ctx, &bmc.V2SessionOpts{
-			SessionOpts:  bmc.SessionOpts{Username: fixedUser, Password: []byte(fixedPass), MaxPrivilegeLevel: ipmi.PrivilegeLevelAdministrator},
-			CipherSuites: []ipmi.CipherSuite{ipmi.CipherSuite3},
-		})
-	case "cmd":
-		_, err = sess.GetDeviceID(ctx)
-	case "close":
-		err = sess.Close(ctx)
-	case "sdr":
-		_, err = bmc.RetrieveSDRRepository(ctx, sess)
+	// one call under the fault; with a fifth argument "again" the SAME call is then made a second time on the same
+	// connection / session while the fault persists (a failed call must not make the next one report success)
+	once := func() (string, bool, time.Duration) {
+		ctx, cancel := context.WithDeadline(context.Background(), time.Now().Add(D))
+		defer cancel()
+		start := time.Now()
+		var err error
+		switch call {
+		case "sl":
+			_, err = t.GetSystemGUID(ctx)
+		case "hs":
+			_, err = t.NewV2Session(ctx, &bmc.V2SessionOpts{
+				SessionOpts:  bmc.SessionOpts{Username: fixedUser, Password: []byte(fixedPass), MaxPrivilegeLevel: ipmi.PrivilegeLevelAdministrator},
+				CipherSuites: []ipmi.CipherSuite{ipmi.CipherSuite3},
+			})
+		case "cmd":
+			_, err = sess.GetDeviceID(ctx)
+		case "close":
+			err = sess.Close(ctx)
+		case "sdr":
+			_, err = bmc.RetrieveSDRRepository(ctx, sess)
+		}
+		elapsed := time.Since(start)
+		res := "ok"
+		if err != nil {
+			res = "err"
+		}
+		return res, elapsed > D+timeAllowance, elapsed
 	}
-	elapsed := time.Since(start)
-	res := "ok"
-	if err != nil {
-		res = "err"
-	}
-	late := elapsed > D+timeAllowance
+	res, late, elapsed := once()
 	// a reply that arrives after its own attempt timed out is still a valid response to the command when a LATER attempt
 	// of a session-less call reads it (no sequence numbers outside a session): success and error are both right then
 	if strings.HasPrefix(fault, "late") && res == "ok" && (call == "sl" || call == "hs" || call == "sdr") {
 		res = "err"
+	}
+	if len(a) > 4 && a[4] == "again" {
+		res2, late2, elapsed2 := once()
+		out := fmt.Sprintf("res=%s late=%s res2=%s late2=%s", res, b2s(late), res2, b2s(late2))
+		switch {
+		case late:
+			return out, fmt.Sprintf("call returned %v after its deadline (allowance %v)", elapsed-D, timeAllowance)
+		case late2:
+			return out, fmt.Sprintf("second call returned %v after its deadline (allowance %v)", elapsed2-D, timeAllowance)
+		case res == "ok" || res2 == "ok":
+			return out, "call reported success although no valid response can have arrived"
+		}
+		return out, ""
 	}
 	out := fmt.Sprintf("res=%s late=%s", res, b2s(late))
 	if late {
@@ -260,6 +279,10 @@ func genTime(g *genCtx) {
 					ops = append(ops, Op{Class: 'P', NonTrivial: true, Kind: "time", Args: []string{c, itoa(r[0]), itoa(r[1]), fmt.Sprintf("%s@%d", f, k)}})
 				}
 			}
+		}
+		// the same call twice while the fault persists (faults under which no reply is ever a valid response)
+		for _, f := range []string{"blackhole", "garbage", "busy"} {
+			ops = append(ops, Op{Class: 'P', NonTrivial: true, Kind: "time", Args: []string{c, "60", "150", f, "again"}})
 		}
 		// control: a well-behaved BMC
 		ops = append(ops, Op{Class: 'P', NonTrivial: false, Kind: "time", Args: []string{c, "200", "2000", "none"}})
